@@ -3,7 +3,8 @@
 Run-time contract on the real expand_run_space: for every enumerated specification the result equals the documented
 Expand function (written from docs/source/run_space.rst and the module docstring), or the documented error is raised.
 Bound: <= 3 blocks, <= 2 keys per block over a 4-letter key alphabet, value lists of length 0..3, both block modes,
-both combine modes, max_runs in {0, 1, 4, 1000}; single-block context+source combinations over real CSV files with 0..2 rows on either side (select/rename are proved deductively).
+both combine modes, max_runs in {0, 1, 4, 1000}; single-block context+source combinations over real CSV files with 0..2 rows on either side (select/rename are proved deductively);
+duplicate keys from inline context / source columns / renamed columns within a block and across adjacent and non-adjacent blocks.
 Also measures materialisation when the cap is exceeded (sys.settrace on the comprehension frames of _expand_entries).
 """
 import itertools, json, sys, logging, random
@@ -187,6 +188,44 @@ for bmode in ("by_position", "combinatorial"):
                 failures.append({"class": "context+source-block-differs-from-documented", "mode": bmode, "context_values": ctx_vals, "source_rows": n_src,
                                  "got": got, "want": want})
 
+# ---- duplicate keys must be rejected wherever they come from: inline / source column / renamed source column, within one block,
+#      across adjacent and non-adjacent blocks -------------------------------------------------------------------------------------
+def _csv2():
+    p_ = _os.path.join(_dir, "two_columns.csv")
+    with open(p_, "w") as fh:
+        fh.write("s,t\n10,1\n20,2\n")
+    return p_
+
+
+def _src(select=None, rename=None):
+    return RunSource(format="csv", path=_csv2(), select=select, rename=rename or {}, mode="by_position")
+
+
+DUP_CASES = {
+    "inline+source-column-in-one-block": [RunBlock(mode="by_position", context={"s": [1, 2]}, source=_src(select=["s"]))],
+    "inline+renamed-source-column-in-one-block": [RunBlock(mode="by_position", context={"c": [1, 2]}, source=_src(select=["t"], rename={"t": "c"}))],
+    "two-source-columns-renamed-to-one-key": [RunBlock(mode="by_position", context={}, source=_src(select=["s", "t"], rename={"t": "s"}))],
+    "inline-then-source-column-in-a-later-block": [RunBlock(mode="by_position", context={"s": [1, 2]}), RunBlock(mode="by_position", context={}, source=_src(select=["s"]))],
+    "source-column-then-inline-in-a-later-block": [RunBlock(mode="by_position", context={}, source=_src(select=["s"])), RunBlock(mode="by_position", context={"s": [1, 2]})],
+    "inline-then-renamed-source-column-in-a-later-block": [RunBlock(mode="by_position", context={"c": [1, 2]}), RunBlock(mode="by_position", context={}, source=_src(select=["t"], rename={"t": "c"}))],
+    "non-adjacent-blocks(inline,other,source-column)": [RunBlock(mode="by_position", context={"s": [1, 2]}), RunBlock(mode="by_position", context={"x": [5, 6]}),
+                                                       RunBlock(mode="by_position", context={}, source=_src(select=["s"]))],
+    "non-adjacent-blocks(source-column,other,source-column)": [RunBlock(mode="by_position", context={}, source=_src(select=["s"])), RunBlock(mode="by_position", context={"x": [5, 6]}),
+                                                              RunBlock(mode="by_position", context={}, source=_src(select=["t"], rename={"t": "s"}))],
+    "missing-selected-column": [RunBlock(mode="by_position", context={}, source=_src(select=["s", "nope"]))],
+}
+for label, blocks in DUP_CASES.items():
+    for combine in ("by_position", "combinatorial"):
+        evaluations += 1
+        distinct.add(("duplicate-keys", label, combine))
+        try:
+            runs, meta = RS.expand_run_space(RunSpaceV1Config(combine=combine, max_runs=1000, blocks=list(blocks)), cwd=_dir)
+            failures.append({"class": "duplicate-or-missing-key-not-rejected", "case": label, "combine": combine, "runs": repr(runs)[:200]})
+        except PipelineConfigurationError:
+            pass
+        except Exception as e:       # noqa
+            failures.append({"class": "duplicate-or-missing-key-rejected-with-an-undocumented-error", "case": label, "combine": combine, "exc": repr(e)[:200]})
+
 # materialisation under an exceeded cap (known finding: the block product is built before the guard)
 counter = {"n": 0}
 code_names = {"_expand_entries"}
@@ -217,7 +256,7 @@ known = []
 if materialised > 20 * input_size:
     failures.append({"class": "cap-exceeded-after-materialising-the-block-product", "line_events_in_expansion": materialised,
                      "input_size": input_size, "max_runs": 5, "product": 16000})
-print(json.dumps({"bound": "<=3 blocks, <=2 keys/block, lists of length 0..3, both modes at block and combine level, max_runs in {0,1,4,1000}; no external sources",
+print(json.dumps({"bound": "<=3 blocks, <=2 keys/block, lists of length 0..3, both modes at block and combine level, max_runs in {0,1,4,1000}; single-block context+source combinations over real CSV files (0..2 rows each side); 9 duplicate / missing key shapes (inline, source column, renamed column; within a block, adjacent and non-adjacent blocks) x 2 combine modes",
                   "evaluations": evaluations, "distinct_nontrivial": len(distinct),
                   "rule": "exhaustive over 0..1 blocks, seeded sample of 2- and 3-block specs; non-trivial = more than one run expected or a documented rejection; distinct = distinct (blocks, combine, max_runs)",
                   "failures": failures[:20], "samples": samples}, default=str))
